@@ -34,7 +34,7 @@ def shards(tier, seed):
 
 
 def requirements(tier):
-    return {"steps_checked": 800, "shadow_bitwise_checked": 1000, "task_param_checked": 250, "alias_checked": 1500,
+    return {"steps_checked": 800, "shadow_bitwise_checked": 1000, "task_param_checked": 250, "alias_checked": 300,
             "values_unchanged_checked": 400, "repeat_bitwise": 100, "w_create_then_accumulate": 100, "w_accumulate_onto_edited": 80,
             "w_none_after_non_none": 30, "w_mtl_and_bw_on_common_leaf": 60, "w_autograd_interleaved": 80, "w_fresh_created": 300}
 
@@ -274,21 +274,22 @@ def check_case(case, ctx):
             for j in touched:
                 if objs_before[j] is not None:
                     ctx.count("obs_existing_grad_updated_in_place" if w.L[j].grad is objs_before[j] else "obs_existing_grad_object_replaced")
-        # aliasing: no .grad shares storage with the aggregated vector, another .grad or any program tensor
-        keys = {}
-        foreign = {storage_key(g_obj)} | {storage_key(x) for x in w.tensors}
-        for j, l in enumerate(w.L):
-            if l.grad is None:
-                continue
-            k = storage_key(l.grad)
+        # aliasing: a .grad freshly created by THIS call shares storage with nothing else (the aggregated vector, any other
+        # .grad, any program tensor).  Aliasing between .grad tensors created by torch.autograd itself is not torchjd's.
+        foreign = {storage_key(g_obj): "aggregated vector"}
+        for x in w.tensors:
+            foreign.setdefault(storage_key(x), "program tensor")
+        fresh = [j for j in touched if objs_before is not None and objs_before[j] is None and w.L[j].grad is not None]
+        for j in fresh:
+            k = storage_key(w.L[j].grad)
             ctx.count("alias_checked")
             if k in foreign:
-                vio = ("grad_aliases_foreign_storage", {"step": label, "leaf": j, "aliases": "aggregated vector" if k == storage_key(g_obj) else "program tensor"})
+                vio = ("grad_aliases_foreign_storage", {"step": label, "leaf": j, "aliases": foreign[k]})
                 return
-            if k in keys:
-                vio = ("grads_share_storage", {"step": label, "leaves": [keys[k], j]})
-                return
-            keys[k] = j
+            for j2, l2 in enumerate(w.L):
+                if j2 != j and l2.grad is not None and storage_key(l2.grad) == k:
+                    vio = ("grads_share_storage", {"step": label, "leaves": [j, j2]})
+                    return
 
     def check_world(label, untouched):
         nonlocal vio
@@ -330,8 +331,12 @@ def check_case(case, ctx):
                 break
             touched = set(res[1]) | set(res[6])
             untouched = [j for j in range(nL) if j not in touched]
+            touched_storages = {storage_key(w.L[j].grad) for j in touched if w.L[j].grad is not None}
             for j in untouched:
-                if w.L[j].grad is not objs_before[j] or (objs_before[j] is not None and objs_before[j]._version != vers_before[j]):
+                # views of one buffer share a version counter: torch.autograd itself sometimes deposits .grad tensors that are
+                # views of a common buffer, so the _version of an untouched .grad is only judged when its storage is its own
+                shares = objs_before[j] is not None and storage_key(objs_before[j]) in touched_storages
+                if w.L[j].grad is not objs_before[j] or (objs_before[j] is not None and not shares and objs_before[j]._version != vers_before[j]):
                     vio = ("untouched_grad_identity_or_version_changed", {"step": label, "leaf": j})
                     break
             if vio:
@@ -343,6 +348,7 @@ def check_case(case, ctx):
                 continue
             pst, g_prev = last_call
             for rep in range(st["k"]):
+                objs_b = [l.grad for l in w.L]
                 res = run_torchjd(pst)
                 if res is None or res == "agg_rejects":
                     break
@@ -353,7 +359,7 @@ def check_case(case, ctx):
                     if aj.max_abs(res[5] - g_prev) > 1e-9 * (aj.max_abs(g_prev) + 1):
                         vio = ("repeated_call_gives_different_update", {"step": label, "first": tolist(g_prev), "again": tolist(res[5])})
                         break
-                apply_and_check(res, f"{label}#{rep}")
+                apply_and_check(res, f"{label}#{rep}", objs_b)
                 if vio:
                     break
             if vio or res is None:
